@@ -441,7 +441,7 @@ func (t *tr) emitFunc(b *strings.Builder, key string) {
 	pre := ""
 	for _, r := range c.resNames {
 		if r != nil && r.Name() != "_" {
-			pre += fmt.Sprintf("let %s := %s in\n  ", t.varName(r), t.zero(r.Type()))
+			pre += fmt.Sprintf("let %s : %s := %s in\n  ", t.varName(r), t.coqType(r.Type()), t.zero(r.Type()))
 		}
 	}
 	end := ""
@@ -704,7 +704,7 @@ func (t *tr) block(c *fnCtx, stmts []ast.Stmt, k string, depth int) string {
 				} else {
 					val = t.zero(obj.Type())
 				}
-				out += fmt.Sprintf("let %s := %s in%s", t.varName(obj), val, nl)
+				out += fmt.Sprintf("let %s : %s := %s in%s", t.varName(obj), t.coqType(obj.Type()), val, nl)
 			}
 		}
 		return out + rest()
